@@ -216,6 +216,8 @@ package oauth2
 //@   ensures [C18.reuse-error-class] err != nil ==> ekind(err) == "invalid_request" || ekind(err) == "server_error"
 
 //@ func (*RefreshTokenGrantHandler).HandleTokenEndpointRequest
+//@   assert @call(handleRefreshTokenReuse)#1 [C20.storage-keys-are-signatures] $arg2 == c.RefreshTokenStrategy.RefreshTokenSignature(ctx, refresh)
+//@   assert @call(GetRefreshTokenSession)#1 [C20.storage-keys-are-signatures] $arg2 == c.RefreshTokenStrategy.RefreshTokenSignature(ctx, refresh)
 //@   modifies anyheap
 //@   let refresh = formget(old(request.GetRequestForm()), "refresh_token")
 //@   let sig  = old(c.RefreshTokenStrategy.RefreshTokenSignature(ctx, refresh))
